@@ -5,6 +5,8 @@ import gen
 from evalutil import *
 
 ID = "C16"
+# approximate cell edge length in radians per resolution
+EDGE = [0.19, 0.072, 0.027, 0.0103, 0.0039, 0.00147, 0.00056, 0.00021, 8e-5, 3e-5, 1.1e-5, 4.3e-6, 1.6e-6, 6e-7, 2.3e-7, 8.8e-8]
 LEVEL = "other"
 MODULES = ["H3Proofs.Props.C16", "H3Proofs.Props.C16Loops"]
 THEOREMS = "auto"
@@ -218,7 +220,10 @@ def evaluate(ctx, rng, tier, focus, budget, broken):
             continue
         stats[kind] = stats.get(kind, 0) + 1
         if not ok(a):
-            viol_.append(viol("cellsToLinkedMultiPolygon failed on distinct valid same-resolution cells", o[:300], "success", a, key=key))
+            # a failure is the recorded finding (missed edge cancellation by _hashVertex: stray 1- and 2-vertex loops make
+            # normalizeMultiPolygon give up) exactly when two almost-equal boundary vertices of this set hash apart
+            fkey = "hashVertex-split" if hash_split(bverts, (cells[0] >> 52) & 15, len(cells)) else key
+            viol_.append(viol("cellsToLinkedMultiPolygon failed on distinct valid same-resolution cells", o[:300], "success", a, key=fkey))
             continue
         t = a.split()
         tail = dict(x.split("=") for x in t if "=" in x)
@@ -284,7 +289,10 @@ def evaluate(ctx, rng, tier, focus, budget, broken):
                     if p not in vowner and min(gc_dist(p, q) for q in bverts) > 1e-12:
                         viol_.append(viol("a loop vertex is not a boundary vertex of an input cell", o[:300], "cell vertex", p, key=key))
                         break
-            if abs(net - carea_chart) > 1e-9 * carea_chart:
+            # the same corner computed from two cells differs by rounding (up to ~1e-15 rad; the library matches them with
+            # geoAlmostEqual), which leaves slivers of relative size ~1e-15 / edge length between the loops and the cells
+            res_ = (cells[0] >> 52) & 15
+            if abs(net - carea_chart) > (1e-9 + 1.2e-14 / EDGE[res_]) * carea_chart:
                 viol_.append(viol("a polygon's enclosed area (outer loop minus its holes) differs from the area of its "
                                   "component's cells (holes attached to the wrong outer loop / edges lost)", o[:300],
                                   repr(carea_chart), repr(net), key=key))
